@@ -449,7 +449,8 @@ class IrregularlyBin(Factory, Container):
                 raise JsonFormatException(json, "IrregularlyBin.nanflow:type")
             nanflow = nanflowFactory.fromJsonFragment(json["nanflow"], None)
 
-            if isinstance(json["bins"], list):
+            if isinstance(json["bins"], list) and len(json["bins"]) > 0:
+                # (toJson always writes the bin that starts at -inf: without any bin the container could not even be printed)
                 bins = []
                 for i, elementPair in enumerate(json["bins"]):
                     if isinstance(elementPair, dict) and hasKeys(elementPair.keys(), ["atleast", "data"]):
